@@ -151,9 +151,38 @@ def run_series(B):
                     _cmp(B, "container.series", (fname, T_, order, label), got, ref, inp, "values")
 
 
+def run_irrelevant_column(B):
+    """C15: from_table BUILDS the multiphase pseudopressure; the (required but unused) pseudopressure column of the PVT table
+    may hold anything - zeros, the pressure itself, a genuine single-phase pseudopressure starting at 0 - without changing the result"""
+    mod = __import__("bluebonnet.flow.flowproperties", fromlist=["x"])
+    pv, kr_t, rho = two_phase_inputs()
+    P = pv["pressure"]
+    cols = {"as supplied": pv["pseudopressure"], "zeros": 0 * P, "starts at 0 and increases (single-phase style: cumulative 2p/(mu z))": np.concatenate([[0.0], np.cumsum(np.diff(P) * (P[1:] + P[:-1]) / 0.02)]),
+            "negative first row": P - P[5], "decreasing": P[::-1].copy()}
+    import pandas as pd
+    for p_i in (float(P[44]), 6000.0):
+        ref = None
+        for label, col in cols.items():
+            tb = pd.DataFrame(dict(pv, pseudopressure=col))
+            inp = {"PVT table": "synthetic linear 1/B, 60 rows", "pseudopressure column of the input table": label, "p_i": p_i}
+            try:
+                with warnings.catch_warnings(), np.errstate(all="ignore"):
+                    warnings.simplefilter("ignore")
+                    fp = mod.FlowPropertiesTwoPhase.from_table(tb, pd.DataFrame(kr_t), dict(rho), 0.1, 0.1, p_i)
+                    rec = {"m_i": float(fp.m_i), "m-scaled column": np.asarray(fp.pvt_props["m-scaled"], dtype=float), "alpha column": np.asarray(fp.pvt_props["alpha"], dtype=float)}
+            except Exception as e:  # noqa: BLE001
+                B.case("container.irrelevant_column", (label, p_i, "construct"), False, input=inp, observed=f"{type(e).__name__}: {e}", required="the wrapper of the same table")
+                continue
+            if ref is None:
+                ref = rec
+                continue
+            for what in rec:
+                _cmp(B, "container.irrelevant_column", (label, p_i), rec[what], ref[what], inp, what)
+
+
 def run(which):
     B = Bounded("container independence (pandas label alignment is outside the array model): tables as dict / DataFrame with default, offset, pressure and permuted row labels; pressures as ndarray / Series with default, offset and permuted labels; "
                 "agreement with the dict-of-arrays / ndarray result to rtol 1e-12")
     for w_ in which:
-        {"flowproperties": run_flowproperties, "from_table": run_from_table, "series": run_series}[w_](B)
+        {"flowproperties": run_flowproperties, "from_table": run_from_table, "series": run_series, "irrelevant_column": run_irrelevant_column}[w_](B)
     return B.result()
